@@ -204,6 +204,7 @@ def family(tier):
         for _, nm in F.exotic_label_maps(s["nodes"]):
             items.append(F.relabel(s, node_map=nm))
     items += F.wide()  # more than ten nodes and edges
+    items += F.big()  # counts above 127
     # longer paths / cycles / nested edges
     items += [F.H([[i, i + 1] for i in range(6)]), F.H([[i, (i + 1) % 6] for i in range(6)]),
               F.H([[0, 1, 2], [2, 3, 4], [4, 5, 6], [6, 7]]), F.H([[1, 2, 3, 4], [1, 2, 3], [1, 2], [1], [3, 4], [4, 5]]),
